@@ -479,6 +479,8 @@ def _range__port(
         attr = f"{sdst}port"
         port_o: Port = getattr(ace_o, attr)
         operator = port_o.operator
+        if operator == "range":
+            raise ValueError(f"invalid {operator=} in {attr} of {line=}, expected eq, neq or no operator")
         if not operator:
             operator = "eq"
             if port.find("-") > -1:
